@@ -344,7 +344,12 @@ func cmdVerify(argv []string) {
 				outs[i] = &OblOut{Name: j.o.Name, Kind: j.o.Kind, Func: j.o.Func, Pos: j.o.Pos, Text: j.o.Text, Status: "undecided", Answer: "skipped", Backend: "smt"}
 				return
 			}
-			r := Solve(j.script, *smtdir, fname, *timeout, *tier == "thorough")
+			tmo := *timeout
+			if j.o.Kind == "vacuity" && tmo > 5000 && *tier != "thorough" {
+				// a contradiction among the assumptions is found quickly or not at all
+				tmo = 5000
+			}
+			r := Solve(j.script, *smtdir, fname, tmo, *tier == "thorough")
 			if r.Status != "unsat" && r.Status != "sat" && j.lite != "" {
 				// retry without quantified facts: fewer assumptions, so only "unsat" is meaningful
 				r2 := Solve(j.lite, *smtdir, fname+"_lite", *timeout, false)
